@@ -656,7 +656,23 @@ def shared_state(ctx):
                                                                      and ast.unparse(r_.slice) == ast.unparse(t_.slice) for r_ in ast.walk(inner.node)) for t_ in n.targets) \
                         and isinstance(n.value, ast.Call) and isinstance(n.value.func, ast.Name) and n.value.func.id in ('tuple', 'frozenset', 'str', 'float', 'int'):
                     # a process-wide memo (look the key up, compute and file it on a miss): harmless iff the key carries everything an entry depends on and the entries
-                    # are never changed by those who receive them - not decided for module-level tables
+                    # are never changed by those who receive them (immutable snapshots, checked by the shape above)
+                    try:
+                        from ..lib import memo_tables
+                        host_ = inner
+                        while getattr(host_, 'parent', None) is not None:
+                            host_ = host_.parent
+                        mt_ = memo_tables(ctx, host_, summarise(ctx, host_, policy=default_policy)).get(name)
+                    except Exception:
+                        mt_ = None
+                    inst_ = 'the process-wide memo %s.%s answers what a fresh computation would (%s)' % (mod, name, fn.qn)
+                    if mt_ is not None and mt_[0] == 'unsound':
+                        ctx.violation('C18.shared', inst_, fn.site(n), 'READ: entries are filed under %s, which leaves out %s: another object (a later session) that differs only there is handed '
+                                      'the entry computed for the first' % (fmt(mt_[1])[:80], ', '.join(mt_[2])), key='C18.shared|memo-key|%s.%s' % (mod, name))
+                        continue
+                    if mt_ is not None and mt_[0] == 'sound':
+                        ctx.holds('C18.shared', inst_ + ': the key %s carries every field and argument the entries are computed from, and the entries are immutable' % fmt(mt_[1])[:80], fn.site(n))
+                        continue
                     ctx.undecided('C18.shared', 'module-level state %s.%s is never written at run time (%s)' % (mod, name, fn.qn), fn.site(n),
                                   'a process-wide memo table: entries outlive the session that computed them')
                     continue
